@@ -3,6 +3,8 @@
 
 package store
 
+import "bytes"
+
 // Test-only exports for the /verif correspondence harness.  Compiled only with
 // -tags verif; adds nothing to the normal build.
 
@@ -99,4 +101,11 @@ func VerifScan(path string, start uint32) (items []VerifScanItem, err error) {
 		}
 		items = append(items, VerifScanItem{verifFromRecord(rec), offset, broken})
 	}
+}
+
+// VerifEncode returns the on-disk image of one record (with padding).
+func VerifEncode(v *VerifRec) []byte {
+	var buf bytes.Buffer
+	wrapRecord(verifToRecord(v)).append(&buf, true)
+	return buf.Bytes()
 }
